@@ -12,7 +12,7 @@ import (
 
 func TestC13Rapid(t *testing.T) {
 	rec := evid.For("C13")
-	runRapid(t, 400, 8000, func(rt *rapid.T) {
+	runRapid(t, 250, 8000, func(rt *rapid.T) {
 		c := rec.Begin()
 		nGen := rapid.IntRange(1, 3).Draw(rt, "genesis")
 		maxVals := uint32(rapid.IntRange(nGen, 5).Draw(rt, "max"))
